@@ -291,7 +291,7 @@ def run(ck):
         rlen = max(0, rb * chunk + rng.choice([-3, -2, -1, 0, 1]))
         if chunk <= 2:
             rlen = rng.randrange(0, 9)
-        if rng.random() < 0.1:
+        if rng.random() < 0.1 and chunk > 2:
             rlen = rng.randrange(0, 300)
         cfg = Cfg(kind, fsci, fwi, max_send, rng.choice([256, 255]), chunk, wtx, rng.choice([1, 2, 59, 63, 0x41]), rlen,
                   rng.choice([b"\x90\x00", b"\x90\x00", b"\x6a\x82", b"\x00\x00"]))
